@@ -126,6 +126,9 @@ BUCases(z) ==
   \cup {[f |-> "$schema", v |-> t, op |-> "validate"] : t \in {"http://json-schema.org/draft-04/schema#", "x", "%zz"}}
   \cup {[f |-> "baseuri", v |-> t, op |-> "resolve"] : t \in {"%zz", "http://h/x#frag", ":"}}
   \cup {[f |-> "baseuri", v |-> t, op |-> "none"] : t \in {"rel/path", "urn:x", "http://h"}}
+  \* numeric keywords holding values no JSON document can hold (a Schema VALUE is any Go value of the type)
+  \cup {[f |-> kw, v |-> x, op |-> "none"] : kw \in {"minimum", "maximum", "exclusiveMinimum", "exclusiveMaximum", "multipleOf"},
+                                          x \in {"+Inf", "-Inf", "NaN", "-0", "5e-324", "1.7976931348623157e308"}}
 
 \* the same malformed node BELOW the root: as an element of every list-valued keyword and as a member of every
 \* map-valued one, with further subschemas after it in every walk order (Resolve stops at the error: whatever
